@@ -82,6 +82,8 @@ struct StoreInner {
     dynamic: Option<(validator::Schedule, validator::Schedule, u64)>,
     /// ids of blocks that a hostile peer offers at once, whether or not the committee of the epoch they claim is known
     hostile: Mutex<Vec<u64>>,
+    /// replica states written through set_state (epoch hand-over part)
+    state_writes: Mutex<Vec<validator::ReplicaState>>,
 }
 
 #[derive(Clone)]
@@ -172,9 +174,10 @@ impl EngineInterface for Store {
         Ok(Payload(vec![]))
     }
     async fn get_state(&self, _ctx: &ctx::Ctx) -> ctx::Result<validator::ReplicaState> {
-        Ok(Default::default())
+        Ok(self.0.state_writes.lock().unwrap().last().cloned().unwrap_or_default())
     }
-    async fn set_state(&self, _ctx: &ctx::Ctx, _s: &validator::ReplicaState) -> ctx::Result<()> {
+    async fn set_state(&self, _ctx: &ctx::Ctx, s: &validator::ReplicaState) -> ctx::Result<()> {
+        self.0.state_writes.lock().unwrap().push(s.clone());
         Ok(())
     }
     async fn push_tx(&self, _ctx: &ctx::Ctx, _tx: Transaction) -> ctx::Result<bool> {
@@ -198,6 +201,7 @@ fn run_once(ch: &Ch, chn: &Chain, scenario: u32) -> ExecResult {
         storage_reads: Mutex::new(0),
         dynamic: None,
         hostile: Mutex::new(vec![]),
+        state_writes: Mutex::new(vec![]),
     }));
     let st2 = store.clone();
     let sch = Arc::new(SendCh(ch.clone()));
@@ -397,6 +401,7 @@ fn new_store(genesis: &validator::Genesis) -> Store {
         storage_reads: Mutex::new(0),
         dynamic: None,
         hostile: Mutex::new(vec![]),
+        state_writes: Mutex::new(vec![]),
     }))
 }
 
@@ -412,6 +417,7 @@ fn new_store_dynamic(genesis: &validator::Genesis, a: &validator::Schedule, b: &
         storage_reads: Mutex::new(0),
         dynamic: Some((a.clone(), b.clone(), b_from)),
         hostile: Mutex::new(vec![]),
+        state_writes: Mutex::new(vec![]),
     }))
 }
 
@@ -887,4 +893,119 @@ pub fn run(args: &Args) -> Report {
     });
     rep.assumptions = vec!["scenarios 1-3: a 5-block chain on a 3-validator committee; scenario 4: 108 pre-genesis blocks (no certificates)".into(), "a crash loses in-flight writes atomically (queue_next_block is atomic by contract)".into(), "task switches only at awaits that return Pending".into()];
     rep
+}
+
+
+// ---------------------------------------------------------------------------------------------
+// Epoch hand-over (reported by C03): a node has ONE durable replica-state slot. The consensus instance
+// of epoch e+1 is started as soon as that epoch's committee is known - long before epoch e ends - and must
+// stay dormant (sign nothing, write nothing) until the last block of epoch e is persisted; otherwise it
+// overwrites the slot in which the replica of epoch e records its votes, and a restart makes that replica
+// forget them. Driven on the real `bft::Config::run` over the real `EngineManager` with a rotating
+// schedule (same committee in both epochs), controlled scheduler, manual clock.
+
+pub struct Handover {
+    pub steps: u64,
+    pub woke_up_after_the_boundary: bool,
+    pub violation: Option<String>,
+}
+
+pub fn epoch_handover(seed: u64) -> Handover {
+    use zksync_consensus_bft as bft;
+    let ca = util::committee(seed, &[1, 1, 1]);
+    let genesis = validator::GenesisRaw { chain_id: validator::ChainId(1337), fork_number: validator::ForkNumber(0), protocol_version: validator::ProtocolVersion::CURRENT, first_block: BlockNumber(0), validators_schedule: None }.with_hash();
+    let w0 = World { c: util::Committee { keys: ca.keys.clone(), weights: ca.weights.clone(), schedule: ca.schedule.clone(), genesis: genesis.clone(), epoch: validator::EpochNumber(0) }, proposals: vec![], invalid_payload: Payload(vec![]) };
+    let blocks: Vec<validator::Block> = (0..3u64).map(|n| { let p = Payload(vec![0x30 + n as u8, 7]); w0.final_block(&p, &w0.commit_qc(&w0.commit_vote(n + 1, n, &p), 0b111)).into() }).collect();
+    // epoch 1 (same committee) starts at block 3
+    let store = new_store_dynamic(&genesis, &ca.schedule, &ca.schedule, 3);
+    let st2 = store.clone();
+    let key = ca.keys[0].clone();
+    let out: Arc<Mutex<Handover>> = Arc::new(Mutex::new(Handover { steps: 0, woke_up_after_the_boundary: false, violation: None }));
+    let out2 = out.clone();
+    let ch = crate::core::Chooser::new(vec![], None);
+    let stuck = sched::run(&ch, |idle| async move {
+        let clock = ctx::ManualClock::new();
+        let root = ctx::test_root(&clock);
+        let (root, st, idle_ref, clock, out, blocks) = (&root, &st2, &idle, &clock, &out2, &blocks);
+        let fut = async move {
+            let (mgr, runner) = EngineManager::new(root, Box::new(st.clone()), time::Duration::seconds(1)).await.map_err(|e| anyhow::format_err!("EngineManager::new: {e:?}"))?;
+            let mgr = &mgr;
+            scope::run!(root, |ctx, s| async move {
+                s.spawn_bg(async move { runner.run(ctx).await.map_err(|e| anyhow::format_err!("RUNNER-ERROR: {e:#}")) });
+                // blocks 0 and 1 of epoch 0 become durable; the committee of epoch 1 becomes known
+                for b in &blocks[..2] {
+                    mgr.wait_for_validator_schedule(ctx, validator::EpochNumber(0)).await?;
+                    let b = b.clone();
+                    s.spawn_bg(async move {
+                        let _ = mgr.queue_block(ctx, b).await;
+                        Ok(())
+                    });
+                    idle_ref.settle().await;
+                    st.0.release.add_permits(1);
+                    idle_ref.settle().await;
+                }
+                for _ in 0..5 {
+                    clock.advance(time::Duration::seconds(1));
+                    idle_ref.settle().await;
+                }
+                if mgr.validator_schedule(validator::EpochNumber(1)).is_none() || st.next() != 2 {
+                    anyhow::bail!("set-up: committee of epoch 1 known = {}, durable blocks = {}", mgr.validator_schedule(validator::EpochNumber(1)).is_some(), st.next());
+                }
+                let writes_before = st.0.state_writes.lock().unwrap().len();
+                // the executor starts the consensus instance of epoch 1 now
+                let (_consensus_send, consensus_recv) = bft::create_input_channel();
+                let (network_send, mut network_recv) = ctx::channel::unbounded();
+                let cfg = bft::Config::new(key, 1 << 20, time::Duration::seconds(2), mgr.clone(), validator::EpochNumber(1))?;
+                s.spawn_bg(async move {
+                    let _ = cfg.run(ctx, network_send, consensus_recv).await;
+                    Ok(())
+                });
+                let mut sent = 0u64;
+                for _ in 0..12 {
+                    idle_ref.settle().await;
+                    clock.advance(time::Duration::seconds(3));
+                    out.lock().unwrap().steps += 1;
+                    while network_recv.try_recv().is_some() {
+                        sent += 1;
+                    }
+                }
+                idle_ref.settle().await;
+                let writes = st.0.state_writes.lock().unwrap().len() - writes_before;
+                if sent > 0 || writes > 0 {
+                    out.lock().unwrap().violation = Some(format!("the consensus instance of epoch 1 (first block 3) sent {sent} message(s) and wrote the node's only replica-state slot {writes} time(s) while block 2, the last block of epoch 0, was not yet persisted: the replica of epoch 0 would forget its votes at a restart"));
+                    return Ok(());
+                }
+                // the last block of epoch 0 becomes durable: now the instance must wake up
+                {
+                    let b = blocks[2].clone();
+                    s.spawn_bg(async move {
+                        let _ = mgr.queue_block(ctx, b).await;
+                        Ok(())
+                    });
+                    idle_ref.settle().await;
+                    st.0.release.add_permits(1);
+                }
+                for _ in 0..6 {
+                    idle_ref.settle().await;
+                    clock.advance(time::Duration::seconds(3));
+                    while network_recv.try_recv().is_some() {
+                        sent += 1;
+                    }
+                }
+                let writes = st.0.state_writes.lock().unwrap().len() - writes_before;
+                out.lock().unwrap().woke_up_after_the_boundary = sent > 0 || writes > 0;
+                anyhow::Ok(())
+            })
+            .await
+        };
+        match sched::drive(&idle, fut, |k| k < 400).await {
+            sched::Driven::Done(r) => r.err().map(|e| format!("{e:#}")),
+            sched::Driven::Stuck => Some("STUCK".into()),
+        }
+    });
+    let mut o = std::mem::replace(&mut *out.lock().unwrap(), Handover { steps: 0, woke_up_after_the_boundary: false, violation: None });
+    if let (None, Some(s)) = (&o.violation, stuck) {
+        o.violation = Some(format!("MACHINERY: {s}"));
+    }
+    o
 }
